@@ -168,7 +168,17 @@ pub fn gen(rng: &mut Rng, size: usize) -> Value {
     let srcs: Vec<String> = if many { (0..18 + rng.below(62)).map(|i| format!("{}{}", gen_src_name(rng), i)).collect() }
         else if rng.chance(1, 3) { (0..2 + rng.below(8)).map(|_| gen_src_name(rng)).collect() }
         else { SRC.iter().map(|s| s.to_string()).collect() };
+    let mut srcs = srcs;
     let roots: Vec<String> = if rng.chance(1, 3) { (0..1 + rng.below(4)).map(|_| gen_root_name(rng)).collect() } else { ROOT.iter().map(|s| s.to_string()).collect() };
+    // names composed out of the roots in play: a name that begins with a root, equals it, or repeats it
+    if !many && rng.chance(1, 3) {
+        for _ in 0..1 + rng.below(3) {
+            let r = rng.pick(&roots).clone();
+            let bare = r.trim_end_matches('/').to_string();
+            let tail = rng.pick(&srcs).clone();
+            srcs.push(match rng.below(4) { 0 => format!("{}/{}", bare, tail), 1 => bare.clone(), 2 => format!("{}/{}/{}", bare, bare, tail), _ => format!("{}{}", r, tail) });
+        }
+    }
     let ncalls = if many { srcs.len() * 2 + rng.below(40) as usize } else { 1 + rng.below((size * 12) as u64) as usize };
     let mut calls = vec![];
     let mut distinct: Vec<String> = vec![]; // model-free bookkeeping only to keep ids in range
